@@ -15,6 +15,7 @@ import (
 	"github.com/codenotary/immudb/embedded/logger"
 	"github.com/codenotary/immudb/embedded/sql"
 	"github.com/codenotary/immudb/embedded/store"
+	"github.com/google/uuid"
 	"verif/harness/vk"
 )
 
@@ -159,10 +160,16 @@ func (g *gen) runSchema(sc schemaCase, bucket string) error {
 		params := map[string]interface{}{"id": sc.ids[r]}
 		for i, v := range row {
 			params[names[i]] = v.raw()
+			if u, isUUID := params[names[i]].(uuid.UUID); isUUID {
+				params[names[i]] = u.String() // the engine takes UUID parameters in text form
+			}
 		}
 		if _, _, err := eng.Exec(ctx, nil, ins, params); err != nil {
 			// a value the engine refuses to store is outside the property's domain
 			g.r.Stats["engine/insert-rejected"]++
+			if os.Getenv("C15_DEBUG") != "" {
+				fmt.Fprintln(os.Stderr, "rejected:", valsString(row), err)
+			}
 			continue
 		}
 		okRows, okIDs = append(okRows, row), append(okIDs, sc.ids[r])
